@@ -28,6 +28,11 @@ def run(ctx):
     for ln in out.split("\n"):
         if ln.startswith("STATS "):
             stats = json.loads(ln[6:])
+    if getattr(ctx, "crash", None):
+        # the process died inside tex.Buffer: vlib closed the tex trace with a `crash` event (rejected by the
+        # trace spec); the reference file may end in a torn line
+        raw = open(std_f, "rb").read()
+        open(std_f, "wb").write(raw[:raw.rfind(b"\n") + 1])
     tex = ctx.load_traces(tex_f)
     std = ctx.load_traces(std_f)
     # 4a. the reference: bytes.Buffer itself must satisfy the spec, otherwise the spec is wrong
